@@ -1059,7 +1059,7 @@ class SQLModel:
             # need a non-trivial select here
             terms = OrderedDict()
             for k in using:
-                terms[k] = k  # these get quoted later
+                terms[k] = None  # a plain column: quoted when written
             view_name = "table_reference_" + str(temp_id_source[0])
             temp_id_source[0] = temp_id_source[0] + 1
             return data_algebra.near_sql.NearSQLUnaryStep(
@@ -2060,7 +2060,8 @@ class SQLModel:
             v = terms[k]
         except KeyError:
             pass
-        if (v is None) or (v == k):
+        if (v is None) or (v == self.quote_identifier(k)):
+            # a plain column (its term is missing or is the quoted name itself); NOT a term whose SQL text happens to spell the column's name
             return self.quote_identifier(k)
         return v + " AS " + self.quote_identifier(k)
 
